@@ -22,6 +22,9 @@ c.ensures += _clauses({
     # inner payloads (and the IV) are only ever produced after the checksum comparison succeeded
     'C07,C03:accepts-only-mac': 'implies(len(result.encrypted_payloads) > 0, crypto is not None and mac_ok(data, crypto))',
     'C07,C03:no-crypto-no-inner': 'implies(crypto is None, len(result.encrypted_payloads) == 0)',
+    # protected <=> the message came through a SK payload whose checksum was verified
+    'C03:protected-only-mac': 'implies(result.protected, crypto is not None and mac_ok(data, crypto))',
+    'C03:inner-only-protected': 'implies(len(result.encrypted_payloads) > 0, result.protected)',
     'C05:header': 'result.spi_i == data[0:8] and result.spi_r == data[8:16] and result.major == be_at(data, 17, 1) // 16 '
                   'and result.minor == be_at(data, 17, 1) % 16 and result.exchange_type == be_at(data, 18, 1) '
                   'and result.is_response == (be_at(data, 19, 1) // 32 % 2 == 1) '
@@ -33,6 +36,9 @@ c.ensures += _clauses({
     'C05:chain-ends-at-datagram-end': 'implies(not header_only, '
                                       'chain_end(data[28:], be_at(data, 16, 1), 0) == len(data) - 28)',
 }, 'ensures', ['C07'])
+
+# observer ghost: callers of Message.parse see whether the returned message was protected
+c.defines = {'protected_seen': 'result.protected'}
 
 lemma('C07/roundtrip',
       vars={'c': Bytes, 'iv': Bytes, 'k': Bytes},
